@@ -1,6 +1,6 @@
 (* Containers.v — C19: the STL-free containers as state machines.
    MODEL: include/nmtools/utl/vector.hpp (as of the fix "destructor frees whenever buffer_ is non-null"),
-   utl/static_vector.hpp, utl/maybe.hpp, utl/either.hpp, operation for operation, on physical memory
+   utl/static_vector.hpp (as of the fix "static_vector(n) refuses n > Capacity"), utl/maybe.hpp, utl/either.hpp, operation for operation, on physical memory
    cells (a cell of a fresh malloc block is indeterminate) with an abstract heap that records
    allocations, frees, frees of non-live blocks and accesses outside a buffer.
    SPEC: std::vector / capacity-bounded vector / std::optional / std::variant as lists, options, sums.
@@ -100,8 +100,9 @@ Section StaticVector.
   Variable Cap : nat.
   Record sobj := mkS { sbuf : list cell; ssize : nat }.
   Definition s_default : sobj := mkS (repeat (Val 0%Z) Cap) 0.       (* buffer = {} : value-initialised *)
-  Definition s_sized (n : nat) : sobj := mkS (repeat (Val 0%Z) Cap) n. (* static_vector(n): size_(n), no capacity test *)
   Definition s_resize (o : sobj) (n : nat) : sobj := if n <=? Cap then mkS (sbuf o) n else o.
+  (* static_vector(n) { resize(n); } — after the fix: a request beyond the capacity is refused, the object stays empty *)
+  Definition s_sized (n : nat) : sobj := s_resize s_default n.
   Definition s_push (o : sobj) (v : Z) : sobj :=
     if Cap <? ssize o + 1 then o
     else let o1 := s_resize o (ssize o + 1) in mkS (upd (sbuf o1) (ssize o1 - 1) (Val v)) (ssize o1).
@@ -140,7 +141,7 @@ Section SeqSpec.
     let (a, b) := s in
     match o with
     | Default => ([], b)
-    | Ctor n => (if fits n then repeat fillc n else a, b)
+    | Ctor n => (if fits n then repeat fillc n else [], b)   (* a refused sized construction leaves the fresh, empty object *)
     | Push v => (if fits (length a + 1) then a ++ [inj v] else a, b)
     | Resize n => (l_resize a n, b)
     | Write i v => (if i <? length a then upd a i (inj v) else a, b)
@@ -163,9 +164,6 @@ Definition smask_run (Cap : nat) := lrun (option Z) (Some 0%Z) None Some (Some C
 Definition cell_ok (c : cell) (m : option Z) : Prop := match m with None => True | Some v => c = Val v end.
 Definition mask_ok (m : option Z) (z : Z) : Prop := match m with None => True | Some v => v = z end.
 Definition determined (l : list (option Z)) : bool := forallb (fun m => match m with Some _ => true | None => false end) l.
-(* sized constructions stay within the capacity *)
-Definition ctor_fits (Cap : nat) (ops : list op) : bool :=
-  forallb (fun o => match o with Ctor n => n <=? Cap | _ => true end) ops.
 
 (* ---------- utl::maybe<T> / utl::either<L,R> ---------- *)
 (* trivial element types: tag + the bytes of the union *)
